@@ -30,6 +30,8 @@ func runExtra(cmd string, args []string) error {
 		return cmdOsInfo()
 	case "lexreplay":
 		return cmdLexReplay(args)
+	case "adversarial":
+		return cmdAdversarial(args)
 	}
 
 	return runSched(cmd, args)
@@ -305,6 +307,31 @@ func cmdLexReplay(args []string) error {
 	}
 
 	b, _ := json.Marshal(map[string]any{"lines": n, "evaluations": ev})
+	fmt.Println(string(b))
+
+	return nil
+}
+
+func cmdAdversarial(args []string) error {
+	fl := flag.NewFlagSet("adversarial", flag.ExitOnError)
+	out := fl.String("out", "", "calls that did not return (ndjson)")
+	shard := fl.Int("shard", 0, "shard")
+	nshard := fl.Int("nshard", 1, "shards")
+	maxTuples := fl.Int("max", 300, "argument tuples per method at most")
+	_ = fl.Parse(args)
+
+	of, err := os.Create(*out)
+	if err != nil {
+		return err
+	}
+	defer of.Close()
+
+	st, err := drv.Adversarial(*shard, *nshard, *maxTuples, of)
+	if err != nil {
+		return err
+	}
+
+	b, _ := json.Marshal(st)
 	fmt.Println(string(b))
 
 	return nil
